@@ -136,7 +136,11 @@ func (r *Runner) Run(c context.Context) (result runner.Result) {
 
 // kill all tracee according to pids
 func killAll(pgid int) {
-	unix.Kill(-pgid, unix.SIGKILL)
+	// the child becomes a process group leader only when it calls setsid:
+	// before that the group does not exist yet, signal the child itself
+	if err := unix.Kill(-pgid, unix.SIGKILL); err == unix.ESRCH {
+		unix.Kill(pgid, unix.SIGKILL)
+	}
 }
 
 // collect died child processes
